@@ -195,6 +195,147 @@ def _flow(h, par, node, hits, seen, depth):
         return
 
 
+SUBST_ABSTS = "zydeco_statics::normalize::<impl zydeco_statics::syntax::TypeId>::subst_absts"
+# former -> (payload path of the binder, payload paths that are in the binder's scope); everything else is outside its scope
+BINDER_SCOPE = {
+    "Abs": ("TypeAbstraction.binder", ["TypeAbstraction.body"]),
+    "Forall": ("Forall.0", ["Forall.1"]),
+    "VForall": ("ValueForall.0", ["ValueForall.1"]),
+    "Exists": ("Exists.binder", ["Exists.body"]),
+    "PackPi": ("PackPi.witnesses", ["PackPi.codomain"]),
+    "VPackPi": ("ValuePackPi.witnesses", ["ValuePackPi.codomain"]),
+}
+
+
+def _third_args(sx, prefix):
+    """the balanced S-expression (or atom) following each occurrence of prefix"""
+    out = []
+    i = sx.find(prefix)
+    while i >= 0:
+        j = i + len(prefix)
+        if j < len(sx) and sx[j] == "(":
+            d, k = 0, j
+            while k < len(sx):
+                d += sx[k] == "("
+                d -= sx[k] == ")"
+                k += 1
+                if d == 0:
+                    break
+            out.append(sx[j:k])
+        else:
+            k = j
+            while k < len(sx) and sx[k] not in " )":
+                k += 1
+            out.append(sx[j:k])
+        i = sx.find(prefix, k)
+    return out
+
+
+def rule_binder_shadowing(ctx):
+    """capture-avoidance of the abstract-type substitution: a binder that rebinds the witness shadows it"""
+    rule = "binder-shadowing"
+    facts = ctx.facts
+    ctx.rule(rule, "TypeId::subst_absts (instantiation of forall / type functions / packages): in the arm of every type former that "
+                   "binds abstract witnesses (Abs, Forall, VForall, Exists, PackPi, VPackPi -- computed from the payload types), the "
+                   "recursive call on each component in the binder's scope receives the assignments filtered by that binder, never the "
+                   "unfiltered list: unfolding one type function twice yields nested binders with ONE witness id, and an unfiltered "
+                   "substitution rewrites the inner bound variable (ill-typed applications accepted, well-typed ones rejected)")
+    adts = facts.adts()
+    ty = adts.get("zydeco_statics::syntax::Type")
+    if ty is None:
+        ctx.anchor_lost(rule, "Type not found")
+        return
+    binders = []
+    for v in ty["variants"]:
+        for f in v["fields"]:
+            t = (f.get("ty") or "").replace("alloc::boxed::Box<", "").rstrip(">")
+            payload = adts.get(t)
+            flds = [(g.get("ty") or "") for vv in (payload or {}).get("variants", []) for g in vv["fields"]]
+            if any(re.search(r"syntax::(TypeBinder|PackTelescope)$", x) for x in flds):
+                binders.append(v["name"])
+    ctx.floor(rule, "type formers binding abstract witnesses", len(binders), 6)
+    t = golden.extract_armexpr(facts, SUBST_ABSTS, r"syntax::Type$")
+    if t is None:
+        ctx.anchor_lost(rule, SUBST_ABSTS + " not found")
+        return
+    ctx.fn(SUBST_ABSTS)
+    loc = facts.bodies()[SUBST_ABSTS]["loc"]
+    arms = {}
+    for key, v in t.items():
+        for name in re.findall(r"(\w+)\(", key):
+            arms[name] = v
+    for V in binders:
+        if V not in BINDER_SCOPE:
+            ctx.violation(rule, "%s:untabled" % V, "type former %s binds abstract witnesses but has no row in BINDER_SCOPE: its scope "
+                          "has not been audited" % V, loc)
+            continue
+        bpath, scoped = BINDER_SCOPE[V]
+        arm = arms.get(V)
+        if arm is None:
+            ctx.violation(rule, "%s:no-arm" % V, "subst_absts has no explicit arm for the binding former %s" % V, loc)
+            continue
+        sx = arm["events"][0]
+        for comp in scoped:
+            recv = "$%s.0/%s" % (V, comp)
+            calls = _third_args(sx, "subst_absts %s $P1 " % recv)
+            ok = bool(calls) and all(c != "$P2" and ("$%s.0/%s" % (V, bpath)) in c for c in calls)
+            ctx.check(ok, rule, "%s:%s" % (V, comp.split(".")[-1]),
+                      "subst_absts arm %s substitutes in `%s` (in the scope of the binder) with %s: the assignment for a witness this "
+                      "binder rebinds is not removed, so an inner bound variable is rewritten by an outer instantiation"
+                      % (V, comp, sorted(set(calls)) or "no recursive call"), [loc[0], arm["ln"]],
+                      detail={"former": V, "component": comp, "filtered_by": bpath})
+
+
+def rule_shape_assumptions(ctx):
+    """the term judgment may destructure a type without a diagnostic only where it has just forced that shape"""
+    rule = "shape-assumptions"
+    facts = ctx.facts
+    ctx.rule(rule, "in the term and pattern judgments, a `let <former>(..) = type_filled_k(T) else { unreachable!() }` (a type taken "
+                   "apart with no diagnostic) is allowed only where T is the result of Lub::lub_k against, or of analysing a sub-term "
+                   "against (`Action::ana*`), a type the same arm built with that head (thk_hole / ret_hole / cs::Thk / cs::Ret): a "
+                   "type that comes from synthesis or from a user annotation can have any shape, so the site would crash or, worse, "
+                   "accept the argument of an unrelated type application")
+    n = 0
+    for suffix, tyname in (("bitter::syntax::TermId> as zydeco_statics::check::Tyck<'a>>::tyck_inner_k", "Term"),
+                           ("bitter::syntax::PatId> as zydeco_statics::check::Tyck<'a>>::tyck_inner_k", "Pattern")):
+        fn = next((p for p in facts.bodies() if p.endswith(suffix)), None)
+        if fn is None:
+            ctx.anchor_lost(rule, "%s not found" % suffix)
+            continue
+        h = ctx.need_hir(rule, fn)
+        loc = facts.bodies()[fn]["loc"]
+        ms = [m for m in H.walk(h["body"]) if H.kind(m) == "Match" and not m.get("src")
+              and re.search(r"bitter::syntax::%s\b" % tyname, H.strip_refs(m["scrut"].get("ty") or ""))]
+        if not ms:
+            ctx.anchor_lost(rule, "%s: dispatch not found" % fn)
+            continue
+        m = max(ms, key=lambda x: len(x["arms"]))
+        for a in m["arms"]:
+            shape_calls = [c for _, c in H.calls(a["body"]) if re.search(r"::(thk_hole|ret_hole|thk_arg|ret_arg)$", c)
+                           or re.search(r"construct::syntax::(Thk|Ret)<.*Construct<.*>>::build$", c)]
+            for x in H.walk(a["body"]):
+                if not (H.kind(x) == "Let" and x.get("els") is not None and isinstance(x.get("init"), dict)
+                        and re.search(r"zydeco_statics::syntax::Type$", tys.strip_refs(x["init"].get("ty", "")))
+                        and H.exits_by_panic_only(x["els"])):
+                    continue
+                n += 1
+                env = A.ArmEnv()
+                env.strip = True
+                env.bind_params(h)
+                env.bind_pat(A.strip_or(a["pat"]))
+                env.absorb(a["body"])
+                sx = A.sexpr(x["init"], env)
+                forced = re.search(r"Lub(>|)::lub_k ", sx) or re.search(r"Tyck<'a>>::tyck_k .*\(zydeco_statics::check::\w*Action(::<\w+>)?::(ana|ana_prepared) ", sx)
+                inst = "%s:%s:%s" % (tyname, A.pat_shape(a["pat"]), A.pat_shape(x["pat"]))
+                ctx.check(bool(forced) and bool(shape_calls), rule, inst,
+                          "%s arm %s takes a type apart as %s with `else { unreachable!() }`, but that type is %s: it is not the result "
+                          "of a lub / analysis against a shape built in this arm (%s), so a program can reach the panic or have an "
+                          "unrelated type application accepted" % (tyname, A.pat_shape(a["pat"]), A.pat_shape(x["pat"]), sx[:200],
+                                                                   [c.split("::")[-1] for c in shape_calls] or "none built"),
+                          [loc[0], x["ln"]], detail={"arm": A.pat_shape(a["pat"]), "forced_by": "lub_k" if "lub_k" in sx else "ana"})
+    ctx.floor(rule, "panic-only type destructurings in the judgments", n, 4)
+
+
 def run(ctx):
     lubarms.check_lub(ctx, "equality")
     c01.rule_err(ctx)
@@ -204,6 +345,9 @@ def run(ctx):
     c01.rule_judgments(ctx)
     c01.rule_expected_type(ctx)
     c01.rule_branch_join(ctx)
+    c01.rule_declaration_lookup(ctx)
+    rule_binder_shadowing(ctx)
+    rule_shape_assumptions(ctx)
     ctx.rule("normalisation", "type-level beta-normalisation performs the audited steps: an application is unfolded into its whole "
                               "left-associated spine, the head AND every argument of the spine are normalised, abstractions consume "
                               "their arguments by substitution (fused when the whole head chain is abstractions), a stuck head keeps "
